@@ -3,6 +3,7 @@
 rdflib evaluates the query text sheXer sends against the registered graph and the answer is returned in the SPARQL JSON
 results format (what SPARQLWrapper's .query().convert() yields).  Every query is logged."""
 import contextlib
+import json
 from . import sut
 from .rdfmodel import to_rdflib
 
@@ -56,6 +57,8 @@ class FakeWrapper(object):
                         d["datatype"] = str(val.datatype)
                     b[v] = d
             bindings.append(b)
+        # a real endpoint answers deterministically; rdflib's store iterates in hash order, so the rows are sorted here
+        bindings.sort(key=lambda b: json.dumps(b, sort_keys=True))
         return _Result({"head": {"vars": vars_}, "results": {"bindings": bindings}})
 
 
